@@ -60,6 +60,13 @@ func dleqCase(t *rapid.T, si suiteInfo) {
 	vlib.Eval(sub)
 	h := rapid.SampledFrom(dleqHashes).Draw(t, "hash")
 	dst := vlib.Bytes(t, 0, 40, "dst")
+	if rapid.IntRange(0, 5).Draw(t, "dstBoundary") == 0 {
+		// lengths at which the two-byte prefix of "Seed-"‖DST and the one-byte DST length of
+		// expand_message change shape
+		dst = make([]byte, rapid.SampledFrom([]int{235, 242, 243, 250, 251, 252, 255, 256, 257, 300}).Draw(t, "dstLen"))
+		vlib.FillRandom(t, dst, "dstB")
+		vlib.Class(sub, fmt.Sprintf("dstlen=%d", len(dst)))
+	}
 	par := dleq.Params{G: g, H: h, DST: dst}
 	ref := refSuite{g: g, h: h, ctx: append([]byte{}, dst...)}
 	m := rapid.SampledFrom([]int{1, 1, 2, 3, 4}).Draw(t, "m")
@@ -823,6 +830,28 @@ func qndleqCase(t *rapid.T) {
 	g := drawSquare(t, N, "g")
 	h := drawSquare(t, N, "h")
 	x := drawExp(t, N, "x")
+	// the secret exponent is any integer: the API does not ask for a reduced one (nobody but
+	// the key generator knows the group order), so values ≥ N, far beyond N and negative ones
+	// are part of the domain; gx and hx are computed here with math/big
+	switch rapid.IntRange(0, 9).Draw(t, "xDomain") {
+	case 0:
+		x = new(big.Int).Add(N, big.NewInt(int64(rapid.IntRange(0, 5).Draw(t, "xPlus"))))
+		vlib.Class(sub, "x in [N, N+5]")
+	case 1:
+		k := big.NewInt(int64(rapid.IntRange(2, 9).Draw(t, "xMul")))
+		x = k.Mul(k, N).Add(k, x)
+		vlib.Class(sub, "x = k·N + x0")
+	case 2:
+		b := make([]byte, (N.BitLen()+7)/8+48)
+		vlib.FillRandom(t, b, "xBig")
+		x = new(big.Int).SetBytes(b)
+		vlib.Class(sub, "x 384 bits longer than N")
+	case 3:
+		x = new(big.Int).Neg(x)
+		vlib.Class(sub, "x negative")
+	default:
+		vlib.Class(sub, "x in [0, N)")
+	}
 	gx := new(big.Int).Exp(g, x, N)
 	hx := new(big.Int).Exp(h, x, N)
 	sp := uint(verifierSecParam)
